@@ -413,6 +413,12 @@ func runHist(ci interface{}, s *vkit.Stats) error {
 				varMocked, varCur = false, varOrig
 			}
 			fp = append(fp, "R")
+		case "gc":
+			// the most recent instruction keeps deciding after a collection (superseded stubs and callbacks may go, the live ones not)
+			vkit.GC()
+			vkit.ChurnSmall(20000)
+			s.Class("gc-between-instructions")
+			fp = append(fp, "g")
 		case "other":
 			// the distractor builder works on its own target only
 			pv = guard(func() {
@@ -462,7 +468,7 @@ func runHist(ci interface{}, s *vkit.Stats) error {
 	return nil
 }
 
-var opGen = vkit.OpGen([]string{"apply", "ret", "when", "call", "cancel", "reset", "other"}, []int{5, 5, 3, 6, 2, 1, 1}, 4)
+var opGen = vkit.OpGen([]string{"apply", "ret", "when", "call", "cancel", "reset", "other", "gc"}, []int{5, 5, 3, 6, 2, 1, 1, 1}, 4)
 
 func quiet() {
 	if f, err := os.OpenFile(os.DevNull, os.O_WRONLY, 0); err == nil && os.Getenv("VERIF_VERBOSE") == "" {
